@@ -3,6 +3,7 @@
 #pragma once
 #include <map>
 #include <set>
+#include <functional>
 #include <string>
 #include <vector>
 
@@ -62,6 +63,8 @@ void setSwaps(long long totalKb, long long usedKb);  // totalKb<0: header only
 
 // install vb::onKill / vb::onCtlWrite / vb::onSyscall with kernel-like semantics
 void installHooks();
+// environment reaction to a kill(2) call (e.g. a descendant cgroup disappears as its processes die); reset by killsim per scenario
+extern std::function<void(int pid, int err)> afterKill;
 
 std::string relOf(const std::string& absPath);  // "<root>/cg/a/b/file" -> "a/b" (dir part), "?" if outside
 
